@@ -240,6 +240,59 @@ func c18Rules(p *core.Prog, r *core.Run) {
 			}
 		}
 	}
+	// the feeder's bare send is safe only because somebody always receives: a
+	// worker leaves its receive loop only when the channel was closed (a worker
+	// that returns early - "the outcome is decided anyway" - leaves the feeder
+	// blocked in its send for good)
+	if m.worker != nil {
+		var recvBlk *ssa.BasicBlock
+		var okVal ssa.Value
+		for _, b := range m.worker.Blocks {
+			for _, in := range b.Instrs {
+				if u, ok := in.(*ssa.UnOp); ok && u.Op == token.ARROW && u.CommaOk {
+					recvBlk = b
+					for _, ref := range *u.Referrers() {
+						if ex, ok := ref.(*ssa.Extract); ok && ex.Index == 1 {
+							okVal = ex
+						}
+					}
+				}
+			}
+		}
+		if recvBlk == nil || okVal == nil {
+			r.Undecided("C18.K2", "worker:receive-loop", p.Pos(m.worker.Pos()), "no `for target := range ch` receive found in the worker")
+		} else {
+			// the edge taken when the channel is closed
+			var closedFrom, closedTo *ssa.BasicBlock
+			for _, b := range m.worker.Blocks {
+				if iff, ok := b.Instrs[len(b.Instrs)-1].(*ssa.If); ok && iff.Cond == okVal {
+					closedFrom, closedTo = b, b.Succs[1]
+				}
+			}
+			early := ""
+			if closedFrom != nil {
+				seen := map[*ssa.BasicBlock]bool{}
+				var walk func(b *ssa.BasicBlock)
+				walk = func(b *ssa.BasicBlock) {
+					if seen[b] {
+						return
+					}
+					seen[b] = true
+					if _, isRet := b.Instrs[len(b.Instrs)-1].(*ssa.Return); isRet {
+						early = p.InstrPos(b.Instrs[len(b.Instrs)-1])
+					}
+					for _, s := range b.Succs {
+						if b == closedFrom && s == closedTo {
+							continue
+						}
+						walk(s)
+					}
+				}
+				walk(m.worker.Blocks[0])
+			}
+			r.Check("C18.K2", "worker:drains-until-closed", closedFrom != nil && early == "", p.Pos(m.worker.Pos()), "the worker returns only when the target channel was closed (an earlier return at %q would leave the feeder blocked in its send)", early)
+		}
+	}
 	for _, l := range m.lits {
 		for _, b := range l.Blocks {
 			for _, in := range b.Instrs {
@@ -257,7 +310,7 @@ func c18Rules(p *core.Prog, r *core.Run) {
 					r.Check("C18.K2", fmt.Sprintf("select@%s", p.FuncName(l)), hasDone, p.InstrPos(x), "blocking select with %d cases has a <-ctx.Done() case on Dial's own context", len(x.States))
 				case *ssa.Send:
 					// only the feeder's rendezvous
-					okS := core.Root(l) == dial && (l == m.feeder || l.Parent() == m.feeder)
+					okS := core.Root(l) == dial && (l == m.feeder || core.CreatorOf(l) == m.feeder)
 					r.Check("C18.K2", fmt.Sprintf("send@%s", p.FuncName(l)), okS, p.InstrPos(x), "bare send: allowed only for the feeder handing a target to a worker")
 				case *ssa.UnOp:
 					if x.Op == token.ARROW {
@@ -355,6 +408,19 @@ func c18Rules(p *core.Prog, r *core.Run) {
 			"each attempt gets its own WithTimeout context created inside the per-target loop (%v), derived from Dial's context (%v), lasting Timeout or 30 s (%v), passed to dialOne (%v) and cancelled right after the attempt (%v); a context created once per worker would charge earlier attempts' time to later ones", inLoop, fromDial, dur, used, cancelled)
 	} else {
 		r.Check("C18.K3", "worker:attempt-timeout", false, p.Pos(m.worker.Pos()), "expected one WithTimeout in Dial's literals, found %d", len(wts))
+	}
+
+	// the attempt's time limit and Dial's cancellation only bound what takes the
+	// context: the default DialFunc (and dialOne) establish the connection with
+	// context-aware calls only
+	if nd := p.Func(Ech, "NewDialer"); nd != nil {
+		scope := append(core.Closures(nd), core.Closures(m.dialOne)...)
+		nBlind := 0
+		for _, s := range callSites(p, scope, `\(\*crypto/tls\.Conn\)\.Handshake|crypto/tls\.Dial|crypto/tls\.DialWithDialer|\(\*crypto/tls\.Dialer\)\.Dial|net\.Dial|net\.DialTimeout|\(\*net\.Dialer\)\.Dial|net\.Lookup(Host|IP|Addr)|\(\*net\.Resolver\)\.LookupHost`) {
+			nBlind++
+			r.Check("C18.K3", fmt.Sprintf("dialfunc:context-blind#%d", nBlind), false, p.InstrPos(s.Instr), "%s does not take the attempt's context: neither the per-attempt timeout nor Dial's cancellation ends it", s.X.Name)
+		}
+		r.Check("C18.K3", "dialfunc:context-aware", nBlind == 0, p.Pos(nd.Pos()), "the default DialFunc and dialOne connect and handshake through context-taking calls (%d context-blind calls)", nBlind)
 	}
 
 	// --- K4
@@ -559,7 +625,7 @@ func c18Rules(p *core.Prog, r *core.Run) {
 			}
 			okSel = hasDone && hasWake && hasAfter
 		}
-		r.Check("C18.K6", "feeder:pacing", paced && okSel && fn.Parent() == m.feeder, p.InstrPos(s), "the one send site is reached directly only for the first target; otherwise through a select on {Done, wake after a failure, time.After(ConcurrencyDelay or 1 s)} (%v)", okSel)
+		r.Check("C18.K6", "feeder:pacing", paced && okSel && core.CreatorOf(fn) == m.feeder, p.InstrPos(s), "the one send site is reached directly only for the first target; otherwise through a select on {Done, wake after a failure, time.After(ConcurrencyDelay or 1 s)} (%v)", okSel)
 		r.Check("C18.K6", "feeder:order", val.Op == "param" && val.Name == "cc0", p.InstrPos(s), "targets are sent in the iteration order of the target sequence (the yielded value itself)")
 	} else {
 		r.Check("C18.K6", "feeder:send-sites", false, p.Pos(m.feeder.Pos()), "expected one send site in the feeder, found %d", len(sends))
